@@ -16,6 +16,6 @@ MANIFEST = {
     "category": "proof",
     "design_ref": "DESIGN.md §5 C01",
     "technique": "verified validator (Lean theorems: certificate ⇒ LR driver sound and crash-free for all inputs) run on every dumped automaton + LR driver model compared with the real parser",
-    "text": "Theorems (Props/C01.lean), for every grammar/automaton pair accepted by Cert.check and EVERY input: whatever LR.parse accepts is a tree whose nodes each spell one production of their rule, rooted at the user's start rule, with the input lexemes as leaves in order (lr_sound); the driver never underflows its stack, misses a goto or mis-accepts (lr_no_crash). Cert.check is evaluated on the automaton and table the real code built for each generated grammar, so one validation settles all inputs of that grammar; LR.parse is compared with the real parser on generated inputs.",
-    "note": "Stage 1 (soundness, crash-freedom) is proved; the completeness half of the property (conflict-free ⇒ every sentence accepted) is not yet a theorem: it is supported per input by a proved-sound bounded recogniser (a rejected input that the recogniser derives is reported). The grammar quantifier is sampled. Trusted: Lean kernel, dump through the public StateGraph/StateTable API, orchestrator.",
+    "text": "Theorems (Props/C01.lean), for every grammar/automaton pair accepted by Cert.check and EVERY input: whatever LR.parse accepts is a tree whose nodes each spell one production of their rule, rooted at the user's start rule, with the input lexemes as leaves in order (lr_sound); the driver never underflows its stack, misses a goto or mis-accepts (lr_no_crash); if the automaton also passes the lookahead half Cert.checkLA (LR(1) closure and edge lookaheads w.r.t. the verified FIRST/nullable of C17, and a table holding every candidate action) then every sentence is accepted with its own derivation tree (lr_complete) and the accepted inputs are exactly the sentences (lr_accepts_iff_sentence). Both validators are evaluated on the automaton and table the real code built for each generated grammar, so one validation settles all inputs of that grammar; LR.parse is compared with the real parser on generated inputs.",
+    "note": "checkLA is demanded exactly when construction reported no conflicts and no cell was settled silently by precedence (then the parser deliberately accepts a subset: known finding). Termination of LR.parse is not proved (fuel; a fuel-out is compared with the real parser's behaviour). The grammar quantifier is sampled. Trusted: Lean kernel, dump through the public StateGraph/StateTable API, orchestrator.",
 }
